@@ -13,6 +13,35 @@ import (
 // NSEC3PARAM's salt, ...), so the discipline cannot be "every parser checks every token". The structural
 // necessary condition decided here is the central one: ZoneParser.Next returns a record parsed by a type's
 // parse method only after having tested the lexer's own error flag (zp.c.l.err) with the outcome false.
+// c07GenerateWidth: a ${offset,width,base} modifier pads every generated value to `width` characters; the width is
+// parsed as an 8-bit number, so one directive cannot blow each of its (at most 65536) records up beyond 255 characters
+// per iterator position. This is the bound that keeps $GENERATE's output proportional to its input.
+func c07GenerateWidth(c *Ctx, r *Report) {
+	fn := c.ssaFunc("modToPrintf")
+	if fn == nil {
+		r.cerr("C07.R2.generate", "modToPrintf:width", "function not found")
+		return
+	}
+	var problems []string
+	n := 0
+	for _, ci := range callsIn(fn, "strconv.ParseUint", "strconv.ParseInt", "strconv.Atoi") {
+		cn := calleeNameSSA(ci.Common())
+		// the width is the value that reaches a "%0*"-style format: take the unsigned parse as the width
+		if cn != "strconv.ParseUint" {
+			continue
+		}
+		n++
+		bits, ok := constIntOf(ci.Common().Args[2])
+		if !ok || bits != 8 {
+			problems = append(problems, fmt.Sprintf("%s: the modifier width is parsed with bit size %d: widths above 255 are accepted, so a 100-byte directive can produce megabytes per record (memory is no longer proportional to the input)", c.pos(ci.Pos()), bits))
+		}
+	}
+	if n != 1 {
+		problems = append(problems, fmt.Sprintf("%d unsigned parses in modToPrintf, want exactly one (the width)", n))
+	}
+	r.check(len(problems) == 0, "C07.R2.generate", "modToPrintf:width", c.pos(fn.Pos()), "width <= 255", "%s", strings.Join(problems, "; "))
+}
+
 func c07RdataLexErr(c *Ctx, r *Report) {
 	fn := c.ssaFunc("ZoneParser.Next")
 	if fn == nil {
